@@ -320,7 +320,33 @@ func stillParses(mode string, without, with []byte) error {
 	return nil
 }
 
+// equalKeyedPairs: some Dict of the file holds two pairs whose keys are built alike. Such pairs render the
+// same key text and are ordered by the rest of their content; comments placed inside their values may then
+// reorder them, which is the Dict's business (C16), not a comment altering code.
+func equalKeyedPairs(f *recipe.File) bool {
+	found := false
+	for _, n := range f.Body {
+		recipe.Walk(n, func(x *recipe.Node) {
+			if x == nil || x.Kind != recipe.KDict {
+				return
+			}
+			seen := map[string]bool{}
+			for _, p := range x.Pairs {
+				k := recipe.JSON(p.K)
+				if seen[k] {
+					found = true
+				}
+				seen[k] = true
+			}
+		})
+	}
+	return found
+}
+
 func checkGenX(c genCase, exclude bool) error {
+	if equalKeyedPairs(c.File) {
+		return nil // outside the domain of this check
+	}
 	c.Dec.Rewind()
 	i := 0
 	text := func() string {
@@ -963,6 +989,7 @@ func TestC15(t *testing.T) {
 		r.Exhaustive(fmt.Sprintf("comment text lengths 0..%d x {one-line, multi-line, multi-line with trailing newline}", maxLen))
 	}
 
+	gen.UniqueKeys = true // (see there: comments inside the values of equal-keyed pairs may reorder them)
 	hx.Rapid(r, t, hx.Check[genCase]{Name: "generated_program_comments", Fn: checkGen}, r.N(800, 8000), func(rt2 *rapid.T) genCase {
 		f := &recipe.File{Ctor: "NewFile", Args: []recipe.Text{"p"}}
 		for i := rapid.IntRange(1, 3).Draw(rt2, "ndecls"); i > 0; i-- {
